@@ -117,6 +117,43 @@ def param_of(label):
     return int(m.group(1)) if m else None
 
 
+_CALLERS = {}
+
+
+def _callers_of(facts, body_id):
+    key = id(facts)
+    if key not in _CALLERS:
+        rev = {}
+        for b in facts.fn_bodies():
+            for bb in b["blocks"]:
+                t = bb["term"]
+                if t["k"] == "call" and not bb["cleanup"]:
+                    res = t["f"].get("res")
+                    if res:
+                        rev.setdefault(res, set()).add(b["id"])
+        _CALLERS[key] = rev
+    return _CALLERS[key].get(body_id, set())
+
+
+def _inherited_review(facts, reviewed, sbody, bad, present_keys):
+    b = facts.bodies.get(sbody)
+    if b is None or b.get("vis") == "pub":
+        return None
+    callers = _callers_of(facts, sbody)
+    if not callers:
+        return None
+    keys = []
+    for c in callers:
+        # ... and only if the reviewed site itself is gone from the caller (the panic moved; a helper that adds a new,
+        # different panic next to a still-present reviewed one inherits nothing)
+        ks = [k for k, e in reviewed.items() if k.startswith("c11.panic|%s|" % norm_id(c)) and
+              set(bad) <= set(e.get("entry_points", [])) and k not in present_keys]
+        if not ks:
+            return None
+        keys.append(ks[0])
+    return keys
+
+
 def run_a(facts, report, config, scope="all"):
     tab = load_table("c11.toml")
     reviewed = {e["key"]: e for e in tab.get("reviewed", [])}
@@ -179,6 +216,7 @@ def run_a(facts, report, config, scope="all"):
                             "internal debug assertion whose condition depends on inputs of %d option/result-returning "
                             "operations: a numerical invariant, not decided here" % rec["n"],
                             rec["info"].get("span"), {"site_body": sbody}), config)
+    present_keys = {"c11.panic|%s|%s|%s" % ((lambda a: (norm_id(a[0]), a[1], a[2]))(sk.rsplit("|", 2))) for sk in sinks}
     for sink, rec in sorted(sinks.items()):
         sbody, skind, sord = sink.rsplit("|", 2)
         key = "c11.panic|%s|%s|%s" % (norm_id(sbody), skind, sord)
@@ -206,6 +244,16 @@ def run_a(facts, report, config, scope="all"):
                                 "reviewed entry invalidated: new option/result-returning entry point(s) reach "
                                 "this input-dependent panic: %s" % sorted(set(fp) - set(e.get("entry_points", []))),
                                 site, detail), config)
+            continue
+        # a panic moved into a private helper that is called only from functions whose own panic sites were reviewed for
+        # (at least) these entry points: the argument of those reviews covers it (e.g. the range assertion of Limb::shl /
+        # Limb::shr shared through one `assert_shift_in_range`)
+        inh = _inherited_review(facts, reviewed, sbody, bad, present_keys)
+        if inh:
+            for k2 in inh:
+                used.add(k2)
+            report.add(Instance(key, "c11.panic", "reviewed", "reviewed through its only callers (%s): %s" % (
+                ", ".join(sorted(x.split("|")[1] for x in inh)), reviewed[inh[0]]["reason"]), site, detail), config)
             continue
         report.add(Instance(key, "c11.panic", "violation",
                             "explicit panic `%s` is reachable from %d option/result-returning operation(s) under a "
